@@ -13,7 +13,15 @@ descriptors of the class, instance attributes, plain class attributes, the old l
 stays compatible, a refused assignment changes nothing, what write_to serialises afterwards is a compatible pair; (b) the header OWNED
 by an open LasWriter / LasAppender is edited between open and close (vlrs assigned / appended / popped / payload grown, extra header and
 padding bytes, extra dimensions, point_format, version, strings, plain fields, alone and combined): close() keeps the offset or refuses,
-and the point records already in the file are intact (raw bytes at the original offset, and re-read through laspy)."""
+and the point records already in the file are intact (raw bytes at the original offset, and re-read through laspy).
+Round 6 (Model/HeaderRoute.v): every ROUTE that puts a header into a file - LasWriter(), laspy.open(mode='w'), LasData.write (of a file read,
+of a LasData built on the caller's header, after a points assignment / update_header), convert + write, the appender's rewrite at close with
+something / nothing / empty chunks appended and fields assigned on its header in between - is judged against the CALLER's header: every field the
+route does not compute itself (statistics, EVLR bookkeeping, format of the record) is in the file as the caller's header held it, with
+non-default values, in every version that has the field (the waveform pointer of 1.3 / 1.4 included - except that LasData.update_header, a
+data-sync operation reached explicitly or by `las.points = ...`, defines the pointer of a header >= 1.4 as 0: on those routes the file must
+hold 0), and a writer leaves the caller's object alone. Correspondence: the set of fields LasHeader.partial_reset() / the private header of a fresh LasWriter / LasData.update_header() touch
+vs route_computed of the model."""
 import copy
 import inspect
 import io
@@ -27,7 +35,11 @@ from harness import common, lasio
 
 DRIVER = "c07"
 ASSUMPTIONS = ["struct.pack('<d') is the identity on 64-bit patterns (exercised with NaN payloads, +-inf, -0.0, subnormals)",
-               "ASCII strings; creation_date is a datetime.date"]
+               "ASCII strings; creation_date is a datetime.date",
+               "LasData.update_header() (explicit, or through `las.points = ...`) is a data-sync operation, not a serialisation: besides the statistics it "
+               "defines start_of_waveform_data_packet_record of a header of version >= 1.4 as 0 (upstream behaviour). On the routes that go through it the "
+               "pointer is judged as a COMPUTED field (the file holds 0; sync_computed of Model/HeaderRoute.v); on every other route (write_to, LasWriter, "
+               "laspy.open(mode='w'), LasData.write of an object that was not re-synchronised, the appender's rewrite, convert) and before 1.4 it is the caller's"]
 
 VERS = [(1, 1), (1, 2), (1, 3), (1, 4)]
 
@@ -790,12 +802,71 @@ def session_input(r):
     return {k: r[k] for k in ("opener", "version", "format", "points", "edits", "trial", "offset_first_written", "size_after_edit") if k in r}
 
 
+def loaded_header(rng, ver):
+    """a header of that version in which EVERY field holds a non-default value (so that a reset of any of them shows)"""
+    h = lasio.rand_header(rng, version=ver, nvlrs=1)
+    h.file_source_id = rng.randrange(1, 65536)
+    h.global_encoding.value = rng.randrange(1, 65536)
+    h.point_count = rng.choice([1, 7, 1000])
+    h.maxs = np.array([rng.uniform(1, 1e5) for _ in range(3)])
+    h.mins = np.array([rng.uniform(-1e5, -1) for _ in range(3)])
+    h.number_of_points_by_return = np.array([rng.randrange(1, 5) for _ in range(15)], dtype=np.uint64)
+    h.start_of_waveform_data_packet_record = rng.choice([1, 2 ** 64 - 1, rng.randrange(1, 2 ** 64)])
+    h.start_of_first_evlr = rng.choice([375, 1234, 99999])
+    h.number_of_evlrs = rng.choice([1, 3])
+    h.extra_header_bytes = b"\x01\x02\x03"
+    h.extra_vlr_bytes = b"\xaa\xbb"
+    return h
+
+
+def route_reset_correspondence(ctx):
+    import laspy
+    dis = []
+    rng = ctx.rng
+    for ver in lasio.VERSIONS:
+        for what in ("LasHeader.partial_reset()", "the private header of a freshly opened LasWriter", "LasData.update_header() of an empty LasData",
+                     "LasData.update_header() after points were stored"):
+            h = loaded_header(rng, ver)
+            before = lasio.header_assoc(h)
+            if what.startswith("LasHeader"):
+                h.partial_reset()
+                after = lasio.header_assoc(h)
+            elif what.startswith("the private"):
+                w = laspy.LasWriter(io.BytesIO(), h, closefd=False)
+                after = lasio.header_assoc(w.header)
+            else:
+                las = laspy.LasData(header=h)
+                if "after points" in what:
+                    las.points = lasio.rand_points(rng, h, 3)
+                    before = dict(lasio.header_assoc(h), start_of_waveform=before["start_of_waveform"])
+                las.update_header()
+                after = lasio.header_assoc(las.header)
+            names = [k for k in before if k not in DERIVED and k != "header_size"]
+            changed = sorted(k for k in names if before[k] != after[k])
+            sync = what.startswith("LasData.update_header")
+            model = common.run_model([(f"sync_computed {ver.split('.')[1]} " if sync else "route_computed ") + " ".join(names)], name=DRIVER)[0].split(" ")
+            computed = sorted(k for k, t in zip(names, model) if t == "T")
+            ctx.traces += 1
+            ctx.case(("route-reset", ver, what), nontrivial=True, sample={"version": ver, "operation": what, "fields_changed": changed})
+            ctx.count("route-reset:" + what)
+            extra = [k for k in changed if k not in computed]
+            # a reset touches exactly the computed fields; update_header recomputes some of them (which ones depends on the record) and
+            # must touch nothing else
+            # (update_header of a header >= 1.4 also defines the waveform pointer as 0: sync_computed of the model)
+            if extra or (changed != computed and not sync) or (sync and ver >= "1.4" and "start_of_waveform" not in changed):
+                dis.append({"kind": f"fields reset / recomputed by {what}", "input": {"version": ver, "operation": what},
+                            "model": f"computed by the route: {computed}", "impl": f"changed: {changed} (beyond the model: {extra}; not changed: {[k for k in computed if k not in changed]})"})
+    return dis
+
+
 def correspond(ctx):
     ctx.extra["rule"] = ("headers with boundary values in every field (u16/u32/u64 extremes, all-ones encodings, random GUIDs, strings of every length "
                          "0..32, leap-year dates, non-finite / subnormal / NaN-payload doubles, extra header bytes, padding, VLRs with empty and 65535-byte "
                          "payloads) over versions 1.1-1.4: write_to bytes vs enc_header, read_from vs dec_header; API histories over every (version, format) "
                          "pair legal or not through LasHeader(), setters, set_version_and_point_format, create, convert, LasWriter vs hstep; dates vs "
-                         "yday/of_yday. non-trivial = non-default field values / an op on an illegal pair; distinct by bytes / op list")
+                         "yday/of_yday; every route that puts a header into a file (writer, LasData.write, convert, appender sessions appending something / nothing) "
+                         "against the caller's header with non-default values in every field of every version; the fields partial_reset / a fresh writer / "
+                         "update_header touch vs route_computed. non-trivial = non-default field values / an op on an illegal pair; distinct by bytes / op list")
     dis = []
     hs = headers(ctx)
     cmds, exp, who = [], [], []
@@ -885,6 +956,9 @@ def correspond(ctx):
         if o.startswith("ok") != (r["raised"] is None):
             dis.append({"kind": "close() of an edited header", "input": session_input(r), "model": o[:60],
                         "impl": "rewritten" if r["raised"] is None else repr(r["raised"])[:120]})
+    # the fields a writing route computes itself (Model/HeaderRoute.v) vs what the implementation resets / recomputes on the header
+    # object a route works with: LasHeader.partial_reset(), the private header of a freshly opened LasWriter, LasData.update_header()
+    dis += route_reset_correspondence(ctx)
     # dates
     ds = dates(ctx)
     outs = common.run_model([f"yday {y} {m} {d}" for y, m, d in ds])
@@ -1051,26 +1125,96 @@ def walk_evlrs(raw, start, count):
     return pos if pos <= len(raw) else None
 
 
+# fields a writing ROUTE computes itself from what it stores (statistics, layout of the new file, the format of the record); every
+# other field of the header handed over by the caller is the CALLER's: it must be in the file as the caller's header held it
+ROUTE_COMPUTED = ("point_count", "maxs", "mins", "number_of_points_by_return", "start_of_first_evlr", "number_of_evlrs",
+                  "point_format_id", "point_size")
+ROUTES = ["chunked-copy", "chunked-copy+evlrs", "writer-no-points", "appender", "appender-no-points", "appender-empty-chunks", "lasdata-write",
+          "lasdata-write-evlrs-cleared", "lasdata-write-evlrs-grown", "convert-write", "convert-same-format-write", "writer-of-modified-header",
+          "open-w-of-caller-header", "LasWriter-of-caller-header", "lasdata-of-caller-header-write", "lasdata-points-assigned-write",
+          "lasdata-update_header-write"]
+
+
+def caller_fields(d, version):
+    return {k: v for k, v in own_fields(d, version).items() if k.split("[")[0] not in ROUTE_COMPUTED}
+
+
+def judge_route(add, inp, route, given, raw, via_update_header=False):
+    """the header in the file `raw` against the fields of the caller's header (`given` = lasio.header_assoc at hand-over): with struct
+    at the ASPRS offsets, and read back through laspy. On a route that goes through LasData.update_header() (explicit call / assignment
+    of las.points) the waveform pointer of a header >= 1.4 is COMPUTED by that data-sync operation (defined as 0; sync_computed of
+    Model/HeaderRoute.v): the file must hold 0; before 1.4, and on every other route, it is the caller's"""
+    import laspy
+    p = parse_header_bytes(raw)
+    over = f"{p['version.major']}.{p['version.minor']}"
+    if via_update_header and p["version.minor"] >= 4:
+        given = dict(given, start_of_waveform=0)
+    try:
+        back = lasio.header_assoc(laspy.read(io.BytesIO(raw)).header)
+    except Exception as ex:  # noqa
+        add(f"file written through {route} cannot be read", inp, repr(ex))
+        back = None
+    for k, v in caller_fields(given, over).items():
+        name = k.split("[")[0]
+        if p.get(k) != v:
+            kind = f"field {name} lost through {route}"
+            add(kind, dict(inp, field=k, route=route), f"the caller's header holds {v!r}, the header in the file holds {p.get(k)!r}")
+        elif back is not None and back.get(k) != v:
+            add(f"field {name} written through {route} not reproduced", dict(inp, field=k, route=route), f"wrote {v!r}, read {back.get(k)!r}")
+    off = p["offset_to_point_data"]
+    if given["extra_vlr_bytes"] and raw[off - len(given["extra_vlr_bytes"]):off] != given["extra_vlr_bytes"]:
+        add(f"field extra_vlr_bytes lost through {route}", dict(inp, route=route), "")
+
+
+def edit_plain_fields(h, rng):
+    """non-default values in the plain fields of a header that is already in a file (same size: nothing moves)"""
+    import uuid
+    h.file_source_id = rng.choice([1, 65535, rng.randrange(65536)])
+    h.global_encoding.value = rng.choice([1, 0xFFFF, rng.randrange(65536)])
+    h.uuid = uuid.UUID(bytes=bytes(rng.randrange(256) for _ in range(16)))
+    h.system_identifier = lasio.rand_ascii(rng, rng.choice([0, 1, 31, 32]))
+    h.generating_software = lasio.rand_ascii(rng, rng.choice([0, 1, 31, 32]))
+    h.creation_date = date(rng.randrange(1, 10000), rng.choice([1, 2, 12]), rng.choice([1, 28]))
+    h.start_of_waveform_data_packet_record = rng.choice([1, 2 ** 64 - 1, rng.getrandbits(64)])
+    if len(h.extra_header_bytes):
+        h.extra_header_bytes = bytes(rng.randrange(256) for _ in range(len(h.extra_header_bytes)))
+    if len(h.extra_vlr_bytes):
+        h.extra_vlr_bytes = bytes(rng.randrange(256) for _ in range(len(h.extra_vlr_bytes)))
+
+
 def file_api(ctx, add):
-    """the header objects of LasWriter / LasAppender / LasData.write: the header in the file must hold the object's own fields
-    after close, and its EVLR fields must describe the EVLRs that are actually in the file"""
+    """every ROUTE that puts a header into a file - LasWriter(), laspy.open(mode='w'), LasData.write (of a file read, of a LasData built on
+    the caller's header, after points assignment / update_header), laspy.convert + write, the appender's rewrite at close (something /
+    nothing / empty chunks appended, fields assigned on its header in between): (a) every field the route does not compute itself is in the
+    file as the CALLER's header held it, in every version that has the field, and the caller's own object is not modified by a writer;
+    (b) the header in the file holds the fields of the object that was serialised; (c) its EVLR fields describe the EVLRs in the file"""
     import laspy
     from laspy.vlrs.vlrlist import VLRList
     rng = ctx.rng
-    for trial in range(ctx.n(120, 1500)):
-        ver = rng.choice(["1.1", "1.2", "1.3", "1.4", "1.4", "1.4", "1.4"])
+    for trial in range(ctx.n(170, 2000)):
+        ver = rng.choice(["1.1", "1.2", "1.3", "1.3", "1.4", "1.4", "1.4", "1.4"])
         h = lasio.rand_header(rng, version=ver)
+        if ver >= "1.3" and rng.random() < 0.7:
+            h.start_of_waveform_data_packet_record = rng.choice([1, 2 ** 32 + 5, 2 ** 64 - 1, rng.getrandbits(64)])
         if rng.random() < 0.25:
             lasio.add_extra_dims(rng, h, rng.choice([1, 2]))
         pts = lasio.rand_points(rng, h, rng.choice([0, 1, 7]))
         evl = VLRList([lasio.rand_vlr(rng, 40) for _ in range(rng.choice([0, 1, 1, 2, 3]))]) if ver == "1.4" else VLRList()
-        src = lasio.write_las(h, pts, evl)
-        scen = rng.choice(["chunked-copy", "chunked-copy+evlrs", "writer-no-points", "appender", "appender-no-points", "lasdata-write",
-                           "lasdata-write-evlrs-cleared", "lasdata-write-evlrs-grown", "convert-write", "writer-of-modified-header"])
-        inp = {"scenario": scen, "version": ver, "format": h.point_format.id, "points": len(pts), "evlrs_in_source": len(evl), "seed_trial": trial}
+        scen = rng.choice(ROUTES)
+        inp = {"scenario": scen, "version": ver, "format": h.point_format.id, "points": len(pts), "evlrs_in_source": len(evl), "seed_trial": trial,
+               "start_of_waveform_data_packet_record": int(h.start_of_waveform_data_packet_record), "global_encoding": int(h.global_encoding.value)}
         ctx.count("file-api:" + scen)
+        ctx.count(f"file-api:version {ver}" + (", waveform pointer non-zero" if ver >= "1.3" and h.start_of_waveform_data_packet_record else ""))
         full = True       # the object compared is the very object that was serialised
         try:
+            given = lasio.header_assoc(h)
+            src = lasio.write_las(h, pts, evl)
+            judge_route(add, inp, "LasWriter(dest, header)", given, src)
+            after = lasio.header_assoc(h)
+            for k, v in given.items():
+                if after.get(k) != v:
+                    add("LasWriter modified the caller's header", dict(inp, field=k), f"{k}: {v!r} -> {after.get(k)!r}")
+            route = scen
             out = io.BytesIO()
             if scen.startswith("chunked-copy") or scen in ("writer-no-points", "writer-of-modified-header"):
                 with laspy.open(io.BytesIO(src), read_evlrs=rng.random() < 0.7) as rd:
@@ -1084,6 +1228,7 @@ def file_api(ctx, add):
                     w = laspy.open(out, mode="w", header=hdr, closefd=False)
                     if scen == "writer-of-modified-header":
                         hdr.file_source_id = (hdr.file_source_id + 1) % 65536
+                        hdr.start_of_waveform_data_packet_record = 77
                         hdr.number_of_evlrs = 5
                         hdr.evlrs = VLRList([lasio.rand_vlr(rng, 10)])
                     if scen != "writer-no-points":
@@ -1097,25 +1242,70 @@ def file_api(ctx, add):
                         written = len(rd.evlrs)
                     w.close()
                     obj = w.header
+            elif scen in ("open-w-of-caller-header", "LasWriter-of-caller-header"):
+                w = laspy.open(out, mode="w", header=h, closefd=False) if scen.startswith("open") else laspy.LasWriter(out, h, closefd=False)
+                with w:
+                    if len(pts):
+                        w.write_points(pts)
+                    if rng.random() < 0.5:
+                        # what the caller does to ITS header while the writer is open does not reach the file
+                        h.start_of_waveform_data_packet_record = 5
+                        h.file_source_id = (h.file_source_id + 7) % 65536
+                obj, written = w.header, 0
             elif scen.startswith("appender"):
                 out = io.BytesIO(src)
                 with laspy.open(out, mode="a", closefd=False) as ap:
+                    edit_first = rng.random() < 0.5
+                    edit = rng.random() < 0.7
+                    if edit and edit_first:
+                        edit_plain_fields(ap.header, rng)
                     if scen == "appender":
                         ap.append_points(lasio.rand_points(rng, ap.header, rng.choice([1, 3])))
+                    elif scen == "appender-empty-chunks":
+                        for _ in range(rng.choice([1, 2])):
+                            ap.append_points(lasio.rand_points(rng, ap.header, 0))
+                    if edit and not edit_first:
+                        edit_plain_fields(ap.header, rng)
                     obj = ap.header
+                    given = lasio.header_assoc(obj)
+                    inp = dict(inp, fields_assigned_on_appender_header=("before appending" if edit_first else "before close") if edit else "no")
+                route = f"the appender's rewrite at close ({scen})"
                 written = len(evl)
             else:
-                las = laspy.read(io.BytesIO(src))
+                if scen in ("lasdata-of-caller-header-write", "lasdata-points-assigned-write", "lasdata-update_header-write"):
+                    las = laspy.LasData(header=h) if scen != "lasdata-of-caller-header-write" or not len(pts) else laspy.LasData(header=h, points=pts)
+                    if scen == "lasdata-points-assigned-write":
+                        las.points = pts
+                    elif scen == "lasdata-update_header-write":
+                        las.update_header()
+                        given2 = lasio.header_assoc(las.header)
+                        want = dict(given, start_of_waveform=0) if ver >= "1.4" else given      # data-sync: the pointer of a header >= 1.4 is defined as 0
+                        for k, v in caller_fields(want, ver).items():
+                            if given2.get(k) != v:
+                                add(f"field {k.split('[')[0]} not as LasData.update_header defines / leaves it", dict(inp, field=k), f"{given.get(k)!r} -> {given2.get(k)!r}, expected {v!r}")
+                else:
+                    las = laspy.read(io.BytesIO(src))
                 if scen == "lasdata-write-evlrs-cleared" and ver == "1.4":
                     las.evlrs = VLRList()
                 elif scen == "lasdata-write-evlrs-grown" and ver == "1.4":
                     las.evlrs.append(lasio.rand_vlr(rng, 30))
                 elif scen == "convert-write":
-                    las = laspy.convert(las, file_version="1.4") if rng.random() < 0.5 else laspy.convert(las)
+                    if rng.random() < 0.5:
+                        las = laspy.convert(las, file_version="1.4")
+                        given = dict(given, **{"version.major": 1, "version.minor": 4})
+                    else:
+                        las = laspy.convert(las)
+                elif scen == "convert-same-format-write":
+                    las = laspy.convert(las, point_format_id=las.header.point_format.id)
+                if scen.startswith("convert"):
+                    # the version convert chooses (never lower than the source's) is judged with the (version, format) pairs
+                    given = dict(given, **{"version.major": int(las.header.version.major), "version.minor": int(las.header.version.minor)})
                 las.write(out)
                 obj, full = las.header, False     # LasData.write serialises a private copy of las.header
                 written = len(las.evlrs) if las.evlrs is not None and obj.version.minor >= 4 else 0
+                route = "convert + LasData.write" if scen.startswith("convert") else f"LasData.write ({scen})"
             raw = out.getvalue()
+            judge_route(add, inp, route, given, raw, via_update_header=scen in ("lasdata-points-assigned-write", "lasdata-update_header-write"))
             p = parse_header_bytes(raw)
             d = lasio.header_assoc(obj)
             over = f"{p['version.major']}.{p['version.minor']}"
